@@ -43,6 +43,16 @@ def c07(payload):
                     bad.append('impedance of source %d changes under voltage scaling: %r -> %r' % (k, x.impedance, y.impedance))
                 if abs(y.power - abs(a) ** 2 * x.power) > tol * abs(a) ** 2 * (abs(x.voltage) * abs(x.current)):
                     bad.append('power of source %d does not scale with |a|^2: %r -> %r' % (k, x.power, y.power))
+            # (a') the dBi pattern is a ratio: unchanged when all voltages are scaled, and whatever power level is requested
+            #      for the V/m table of the same request
+            from mininec.mininec import Angle
+            if m.power > 0 and m2.power > 0:
+                zq = Angle(10.0, 25.0 if spec['media'] is not None else 50.0, 3); aq = Angle(rng.uniform(0, 360), 80.0, 3)
+                m.compute_far_field(zq, aq); g1 = np.array(m.far_field.gain)
+                m2.compute_far_field(zq, aq, pwr=10 ** rng.uniform(-2, 3), dist=10 ** rng.uniform(0, 4)); g2 = np.array(m2.far_field.gain)
+                msk = g1 > g1.max() - 40
+                if msk.any() and np.abs(g1[msk] - g2[msk]).max() > 1e-6 + 100 * tol:
+                    bad.append('dBi pattern changes by %.3g dB when the voltages are scaled by %r and a power level is requested' % (np.abs(g1[msk] - g2[msk]).max(), a))
             # (b) superposition: each source alone in its own model (others absent)
             # and with the others held at 0 V
             tot0 = np.zeros(n, dtype=complex); tot1 = np.zeros(n, dtype=complex)
